@@ -176,7 +176,8 @@ def case_mibdump(idx, rng, tier, res):
         opts = [o for o in ('--rebuild', '--no-dependencies', '--ignore-errors', '--dry-run',
                             '--no-mib-writes', '--generate-mib-texts', '--no-python-compile')
                 if rng.random() < 0.22]
-        if fmt == 'json' and rng.random() < (0.5 if '--dry-run' in opts else 0.25):
+        # an index document exists for the JSON format only; asking for it with another format is legal
+        if (fmt == 'json' or rng.random() < 0.4) and rng.random() < (0.5 if '--dry-run' in opts else 0.25):
             opts.append('--build-index')
             if '--dry-run' in opts:
                 res.count('dryrun_with_build_index')
